@@ -313,7 +313,10 @@ def check(rep, F, tier, replay=None):
                         guarded = True
         if casts and not guarded:
             rep.violation("NAT", "overflow-check", "variable_nat_decode narrows to u64 without a dominating `> u64::MAX` rejection", {})
-        if not casts and shl and all(st[3][4] == "u128" for bi, st in shl):
+        checked_narrow = [c for c in F.calls(d) if re.search(r"(TryFrom<u128>>::try_from|TryInto<u64>>::try_into|TryFrom<.*> for u64>::try_from|TryInto<U>>::try_into)$", c.to or "")]
+        if not casts and checked_narrow:
+            pass  # u64::try_from(u128): the exact, fallible narrowing - nothing above 2^64 - 1 gets through
+        elif not casts and shl and all(st[3][4] == "u128" for bi, st in shl):
             rep.violation("NAT", "no-narrowing", "variable_nat_decode no longer narrows its wide accumulator explicitly", {})
         # Some only under (byte & 0x80) == 0 ; None at loop end
         rep.inst("NAT")
@@ -336,7 +339,8 @@ def check(rep, F, tier, replay=None):
             ok_some = ok_some and good
         if not ok_some:
             rep.violation("NAT", "terminator", "variable_nat_decode returns a value on a path where the last byte read still has its continuation bit set (or never returns one)", {})
-        if len(nones) < 2:
+        residual_nones = [c for c in F.calls(d) if (c.to or "").endswith("from_residual") and c.dest == "_0"]
+        if len(nones) + len(residual_nones) < 2:
             rep.violation("NAT", "unterminated", "variable_nat_decode lacks the None exits for overflow / unterminated input (found %d)" % len(nones), {})
     e = find_fn(rep, F, "protocol_types::address::variable_nat_encode")
     if e:
